@@ -54,6 +54,17 @@ CLAIMED = {
             "Static: H = J0(q xi) q dq/2pi and H0 = q dq/2pi share one weight vector; apply = H.I - H0.I is linear; log grid "
             "with ratio > 1; acceptance mask polarity; background forced to 0 for SESANS; constructor binding.",
             "Not decided: quadrature accuracy against known Hankel pairs.", "C19"),
+    "C10": ("AST/CFG post-dominance of the unknown-name refusal + table agreement across interfaces",
+            "Static: the left-over test post-dominates the pop-based consumption in get_mesh and create_parameters; "
+            "setParam/getParam end in raise on every non-matching path; suffix/default tables agree across direct, "
+            "bumps, sasview and convert; each data branch builds one index from q range, mask==0 and ~isnan; hidden "
+            "parameters; all interfaces share make_kernel_args/_calc_theory.",
+            "Not decided: numeric equality of the theory across interfaces.", "C10"),
+    "C17": ("def-use slice of the cache name and compiled text in make_dll + freshness/mtime-guard rules",
+            "Static: library name depends on the whole generated source (CRC32), dtype bits and model id; the compiled "
+            "text depends on nothing else; every piece make_source concatenates is read at call time or via an "
+            "mtime-guarded cache and reaches the result; need_reload covers the module file and its C sources.",
+            "Trusted: CRC32 distinguishes the texts in play; mtimes advance on edit. Edit histories are not executed.", "C17"),
 }
 
 NOT_APPLICABLE = {
